@@ -364,6 +364,7 @@ type c15Worker struct {
 	loads   int64
 	ran     int64
 	skipped int64
+	flaky   int64
 	nontriv int64
 	unobs   []string
 	badAcc  []string
@@ -379,11 +380,18 @@ type c15Ref struct {
 func (w *c15Worker) reference(o *c15Opt) *c15Ref {
 	r := &c15Ref{out: map[string]c15Outcome{}, isBad: map[string]bool{}}
 	base := append([]string{"fabio"}, o.Ctx...)
-	r.out["default"] = c15Load(base, nil)
-	w.loads++
-	for k, v := range o.V {
-		r.out[k] = c15Load(append(append([]string{}, base...), "-"+o.Name+"="+v), nil)
+	stable := func(args []string) c15Outcome {
+		out := c15Load(args, nil)
 		w.loads++
+		for try := 0; try < 2 && out.err != nil; try++ { // a transient interface-query error must not become the reference
+			out = c15Load(args, nil)
+			w.loads++
+		}
+		return out
+	}
+	r.out["default"] = stable(base)
+	for k, v := range o.V {
+		r.out[k] = stable(append(append([]string{}, base...), "-"+o.Name+"="+v))
 		r.isBad[k] = r.out[k].err != nil
 	}
 	r.obs = !reflect.DeepEqual(r.out["v1"].cfg, r.out["v2"].cfg)
@@ -439,6 +447,17 @@ func (w *c15Worker) runCase(c *c15Case, o *c15Opt, ref *c15Ref, idx int) bool {
 	got := c15Load(args, environ)
 	w.loads++
 	w.ran++
+	// config.Load asks the operating system for the network interfaces (go-sockaddr templates);
+	// under load that query fails now and then.  A genuine disagreement is deterministic, so a
+	// disagreeing outcome is only judged if it shows again (DESIGN section 4, rule 2).
+	for try := 0; try < 2 && !c15Agrees(c, ref, got); try++ {
+		again := c15Load(args, environ)
+		w.loads++
+		if c15Agrees(c, ref, again) {
+			w.flaky++
+			got = again
+		}
+	}
 	rec := *c
 	rec.Opt, rec.Idx, rec.Args, rec.EnvB64, rec.EnvText = o.Name, idx, args, c15B64(environ), c15Quote(environ)
 	if hasFile {
@@ -505,6 +524,21 @@ func (w *c15Worker) runCase(c *c15Case, o *c15Opt, ref *c15Ref, idx int) bool {
 		verifx.Emit(map[string]any{"kind": "error", "msg": "case with unknown result " + c.Result})
 	}
 	return true
+}
+
+// c15Agrees reports whether an outcome is the one the case prescribes (see runCase for the clauses).
+func c15Agrees(c *c15Case, ref *c15Ref, got c15Outcome) bool {
+	if got.panic != nil || (got.cfg == nil) == (got.err == nil) {
+		return false
+	}
+	if c.Fstate == "junk" && got.err != nil {
+		return true
+	}
+	want := ref.out[c.Value]
+	if c.Result == "error" || want.err != nil {
+		return got.err != nil
+	}
+	return got.err == nil && reflect.DeepEqual(got.cfg, want.cfg)
 }
 
 func c15Stack(s string) string {
@@ -741,7 +775,7 @@ func c15RunShard(t *testing.T, shard, shards int) {
 	if n := verifx.EnvInt("VERIF_C15_ROBUST", 0); n > 0 {
 		nrob = w.robust(rand.New(rand.NewSource(seed*1000+int64(shard))), n/shards+1)
 	}
-	verifx.Summary(map[string]any{"options": nopts, "all_options": len(opts), "cases": len(cases), "ran": w.ran, "loads": w.loads, "skipped": w.skipped,
+	verifx.Summary(map[string]any{"options": nopts, "all_options": len(opts), "cases": len(cases), "ran": w.ran, "loads": w.loads, "skipped": w.skipped, "flaky": w.flaky,
 		"distinct_nontrivial": w.nontriv, "unobservable": w.unobs, "bad_accepted": w.badAcc, "robust": nrob, "samples": w.samples})
 }
 
